@@ -21,9 +21,13 @@ class C20(Check):
         "repository's own fake stream",
     ]
     real_vs_stub = {
-        "real": "duet 0.2.9 (tasks, scopes, Limiter, AsyncCollector), cirq.Collector, PauliSumCollector, "
-                "cirq.Sampler shims",
-        "stub": "duet Scheduler.time and the wait for readiness; the sampler backend (fake, simulator-completed)",
+        "real": "duet 0.2.9 (tasks, scopes, Limiter, AsyncCollector), asyncio tasks/queues/futures, cirq.Collector, "
+                "cirq.Sampler shims and run_batch, ProcessorSampler, StreamManager, ResponseDemux, "
+                "AsyncioExecutor.submit, EngineClient (_run_retry_async), EngineJob (results_async, polling, "
+                "recreate), Engine.run_sweep_async",
+        "stub": "duet Scheduler.time and the wait for readiness; the asyncio loop's selector/clock/thread "
+                "(AsyncioExecutor.__init__ never runs); gRPC transport and Quantum Engine server (model E3); "
+                "sampler/processor back ends of W1/W2 (fakes completed by the simulator)",
     }
     tiers = {"quick": {"runs": 30000, "wall": 80}, "thorough": {"runs": 3000000, "wall": 1200}}
     expected_probes = ["w1:out-of-order-completion", "w1:declined-with-work-left", "w1:budget-exhausted",
@@ -32,7 +36,9 @@ class C20(Check):
                        "w3:PROGRAM_DOES_NOT_EXIST", "w3:break-with-two-in-flight", "w3:T2-reader-death",
                        "w3:cancel-before-request-queued", "w3:cancel-with-request-out", "w3:cancel-rpc-sent",
                        "w3:reply-for-stale-request", "w3:submit-after-stop", "w3:result-after-retry",
-                       "w2:out-of-order-completion", "w2:batched-job", "w2:limiter-saturated"]
+                       "w2:out-of-order-completion", "w2:batched-job", "w2:limiter-saturated",
+                       "l2:result", "l2:polling-fallback", "l2:recreate-path", "l2:unary-fault-fired",
+                       "l2:error:timeout", "l2:error:nonretryable-break", "l2:minutes-of-virtual-time"]
 
     def setup(self) -> None:
         from simkit import repoenv
@@ -40,19 +46,22 @@ class C20(Check):
         repoenv.assert_working_tree(cirq)
         import cirq_google
         repoenv.assert_working_tree(cirq_google)
-        from checks import c20_w1, c20_w2, c20_w3
+        from checks import c20_l2, c20_w1, c20_w2, c20_w3
+        self._l2 = c20_l2
         self._w1 = c20_w1
         self._w2 = c20_w2
         self._w3 = c20_w3
 
     def run_one(self, tape, ctx: Ctx) -> None:
-        w = tape.weighted([3, 6, 2], "workload")
+        w = tape.weighted([3, 6, 2, 3], "workload")
         if w == 0:
             self._w1.run(tape, ctx)
         elif w == 1:
             self._w3.run(tape, ctx)
-        else:
+        elif w == 2:
             self._w2.run(tape, ctx)
+        else:
+            self._l2.run(tape, ctx)
 
 
 CHECK = C20()
